@@ -86,6 +86,7 @@ func checkC17(c *Ctx, r *Report) {
 		"R3 the size reader can actually reach every rejection it declares (no branch on a loop-carried flag that is constant false — the stated-belief contradiction of a `break` right after setting it), succeeds only after the whole string is consumed, requires a digit and guards overflow",
 		"R4 override discipline: persistence never reads the override; Read prefers the override; the update path never writes the override (staging copies the cell and uses SetNoClear); overrides are written only from ConfigProp.Overwrite, called only from the flag handlers",
 		"R5 load is strict: DisallowUnknownFields on the decoder it decodes with, and verify() dominates its success return",
+		"R6 what is written into the file that is renamed over the config file is encoding/json's encoding of a Config value on every way the bytes reach that write (not a document that went through map[string]any)",
 	}
 	r.NotDec = []string{"equality of values after a round trip for all values (value semantics)", "time.Duration / slog.Level text forms (stdlib, trusted)", "all size strings"}
 	r.Exhaust = true
@@ -662,6 +663,123 @@ func checkC17(c *Ctx, r *Report) {
 		}
 		r.Check(okV, "C17.R5", "load returns a config only after verify() succeeded", c.Pos(f.Pos()), "success return dominated by verify()==nil", "load can return a configuration that did not pass verify()")
 	}
+
+	// ---- R6: what is written to the config file is the live configuration's own serialisation — the encoding of a
+	// Config value by encoding/json — and not a document that went through another representation on the way (a
+	// map[string]any decoded from JSON keeps unknown keys, which the strict loader then refuses, and turns every
+	// integer into a float64). Decided at the body that renames into the config path, for every way its content
+	// reaches it.
+	nWr := 0
+	isConfigEncoding := func(v ssa.Value) bool {
+		t := v.Type()
+		if p, isP := t.Underlying().(*types.Pointer); isP {
+			t = p.Elem()
+		}
+		return strings.HasSuffix(canonTypes(t.String()), configPkg+".Config")
+	}
+	var encodedConfig func(v ssa.Value, ctx dctx, d int) bool
+	encodedConfig = func(v ssa.Value, ctx dctx, d int) bool {
+		if d > 8 {
+			return false
+		}
+		switch x := resolveVal(v).(type) {
+		case *ssa.Parameter:
+			if a, c2, ok := paramArg(x, ctx); ok {
+				return encodedConfig(a, c2, d+1)
+			}
+			// every caller hands in such a document
+			g := x.Parent()
+			idx := -1
+			for i, q := range g.Params {
+				if q == x {
+					idx = i
+				}
+			}
+			cs := li.Callers[g]
+			if len(cs) == 0 || idx < 0 {
+				return false
+			}
+			for _, site := range cs {
+				call, ok := site.in.(*ssa.Call)
+				if !ok || idx >= len(callArgs(call)) || !encodedConfig(callArgs(call)[idx], nil, d+1) {
+					return false
+				}
+			}
+			return true
+		case *ssa.Extract:
+			if call, ok := x.Tuple.(*ssa.Call); ok {
+				switch calleeName(call) {
+				case "encoding/json.Marshal", "encoding/json.MarshalIndent":
+					return isConfigEncoding(unconv(callArgs(call)[0]))
+				}
+				if h := helperBody(call); h != nil {
+					return helperResultBounded(h, x.Index, func(ret *ssa.Return, rv ssa.Value) bool {
+						if last := retVals(ret); len(last) > 0 && last[len(last)-1].Type().String() == "error" && !isNilConst(last[len(last)-1]) {
+							return true // a failing return hands back no document
+						}
+						return encodedConfig(rv, append(append(dctx{}, ctx...), call), d+1)
+					})
+				}
+			}
+		case *ssa.Call:
+			if calleeName(x) == "(*bytes.Buffer).Bytes" || calleeName(x) == "(*bytes.Buffer).String" {
+				// the buffer an encoder wrote a Config into (and nothing else)
+				buf := resolveVal(callArgs(x)[0])
+				okEnc, nEnc := true, 0
+				eachInstr(x.Parent(), func(in ssa.Instruction) {
+					mk, isC := in.(*ssa.Call)
+					if !isC || calleeName(mk) != "encoding/json.NewEncoder" || resolveVal(unconv(callArgs(mk)[0])) != buf {
+						return
+					}
+					if refs := mk.Referrers(); refs != nil {
+						for _, ref := range *refs {
+							if ec, isE := ref.(*ssa.Call); isE && calleeName(ec) == "(*encoding/json.Encoder).Encode" {
+								nEnc++
+								if !isConfigEncoding(unconv(callArgs(ec)[1])) {
+									okEnc = false
+								}
+							}
+						}
+					}
+				})
+				return okEnc && nEnc > 0
+			}
+		}
+		return false
+	}
+	for _, w := range li.Fns {
+		if originPkgPath(w) != configPkg {
+			continue
+		}
+		ren := findCall(w, "os.Rename")
+		tmp := findCall(w, "os.CreateTemp")
+		if ren == nil || tmp == nil || atomStr(ren.Call.Args[1]) != "configPath.Path" {
+			continue
+		}
+		fromTmpV := func(v ssa.Value) bool {
+			return derivesFrom(v, func(x ssa.Value) bool { return x == ssa.Value(tmp) })
+		}
+		eachInstr(w, func(in ssa.Instruction) {
+			call, ok := in.(*ssa.Call)
+			if !ok {
+				return
+			}
+			a := callArgs(call)
+			switch calleeName(call) {
+			case "(*encoding/json.Encoder).Encode":
+				if mk, isMk := resolveVal(a[0]).(*ssa.Call); isMk && calleeName(mk) == "encoding/json.NewEncoder" && fromTmpV(callArgs(mk)[0]) {
+					nWr++
+					r.Check(isConfigEncoding(unconv(a[1])), "C17.R6", fnKey(w)+": the config file receives the encoding of the live Config", c.InstrPos(call), "json.Encoder.Encode(*Config) into the temp file", "what is encoded into the config file is not the Config value itself")
+				}
+			case "(*os.File).Write", "(*os.File).WriteString", "io.WriteString":
+				if len(a) >= 2 && fromTmpV(a[0]) {
+					nWr++
+					r.Check(encodedConfig(a[1], nil, 0), "C17.R6", fnKey(w)+": the config file receives the encoding of the live Config", c.InstrPos(call), "the bytes written are, on every way they get here, encoding/json's encoding of a Config value", "the bytes written into the config file are not (on every way they reach this write) the encoding of a Config value: a document that went through map[string]any keeps keys the strict loader refuses at the next start and loses integer precision above 2^53")
+				}
+			}
+		})
+	}
+	r.Floor("C17.R6", nWr, 1, "writes into the temp file that becomes the config file")
 }
 
 func checkC18(c *Ctx, r *Report) {
@@ -746,6 +864,22 @@ func checkC18(c *Ctx, r *Report) {
 				r.Check(ok2, "C18.R1", "subscribers are notified only after verify and persist succeeded", c.InstrPos(call), "ConfirmCommitted dominated by verify()==nil and persist()==nil", "components are told about an update that has not been verified and persisted yet")
 			})
 		}
+		// ... or by a helper the update calls (pending.confirm()): the helper's call site is what has to be gated
+		for _, hc := range helperContexts(f, 2) {
+			if len(hc.ctx) == 0 {
+				continue
+			}
+			eachInstr(hc.fn, func(in ssa.Instruction) {
+				call, ok := in.(*ssa.Call)
+				if !ok || !call.Call.IsInvoke() || call.Call.Method.Name() != "ConfirmCommitted" {
+					return
+				}
+				nConf++
+				site := hc.ctx[0]
+				ok2 := onlyWhenNil(f, site, ver, true) && onlyWhenNil(f, site, per, true)
+				r.Check(ok2, "C18.R1", "subscribers are notified only after verify and persist succeeded", c.InstrPos(site), "the helper that calls ConfirmCommitted is entered only after verify()==nil and persist()==nil", "components are told about an update that has not been verified and persisted yet")
+			})
+		}
 		r.Floor("C18.R1", nConf, 1, "ConfirmCommitted call sites")
 		// rollback on every error exit after staging
 		var rollsBack func(g *ssa.Function, d int) bool
@@ -786,7 +920,11 @@ func checkC18(c *Ctx, r *Report) {
 			return false
 		}
 		var bad []string
+		deferred := deferredRollback(li, f, setp, ver, per)
 		for _, e := range exitsAvoiding(setp, isRollback, nil) {
+			if deferred {
+				break // a rollback registered with defer before staging runs on every exit that is not an accepted update
+			}
 			ret := e.(*ssa.Return)
 			vals := retVals(ret)
 			if len(vals) == 2 && isNilConst(vals[1]) {
@@ -1291,26 +1429,76 @@ func checkC18(c *Ctx, r *Report) {
 	// ---- R3
 	for _, f := range c.FuncsNamed("(*" + configPkg + ".Config).persist") {
 		var bad []string
-		eachCall(f, func(call ssa.CallInstruction, n string) {
-			switch n {
-			case "os.Create", "os.WriteFile", "os.Truncate":
-				bad = append(bad, n+" at "+c.InstrPos(call))
-			case "os.OpenFile":
-				if !strings.Contains(atomStr(call.(ssa.Value)), "tmp") {
+		ok := false
+		// the steps may sit in persist itself or in a helper it hands the encoded document to (writeConfigFile(document))
+		for _, hc := range helperContexts(f, 2) {
+			g := hc.fn
+			eachCall(g, func(call ssa.CallInstruction, n string) {
+				switch n {
+				case "os.Create", "os.WriteFile", "os.Truncate":
 					bad = append(bad, n+" at "+c.InstrPos(call))
+				case "os.OpenFile":
+					if !strings.Contains(atomStr(call.(ssa.Value)), "tmp") {
+						bad = append(bad, n+" at "+c.InstrPos(call))
+					}
+				}
+			})
+			ren := findCall(g, "os.Rename")
+			tmp := findCall(g, "os.CreateTemp")
+			if ren == nil || tmp == nil {
+				continue
+			}
+			fromTmpV := func(v ssa.Value) bool {
+				return derivesFrom(v, func(x ssa.Value) bool { return x == ssa.Value(tmp) })
+			}
+			// what is written into the temp file: an encoder made on it, or the file's own Write / WriteString, or io.Copy
+			var writes []*ssa.Call
+			eachInstr(g, func(in ssa.Instruction) {
+				call, isC := in.(*ssa.Call)
+				if !isC {
+					return
+				}
+				a := callArgs(call)
+				switch calleeName(call) {
+				case "(*encoding/json.Encoder).Encode":
+					if mk, isMk := resolveVal(a[0]).(*ssa.Call); isMk && calleeName(mk) == "encoding/json.NewEncoder" && fromTmpV(callArgs(mk)[0]) {
+						writes = append(writes, call)
+					}
+				case "(*os.File).Write", "(*os.File).WriteString", "io.Copy", "io.WriteString", "(*bufio.Writer).Flush":
+					if len(a) > 0 && fromTmpV(a[0]) {
+						writes = append(writes, call)
+					}
+				}
+			})
+			errOf := func(call *ssa.Call) ssa.Value {
+				if tup, isT := call.Type().(*types.Tuple); isT {
+					return extractOf(call, tup.Len()-1)
+				}
+				return call
+			}
+			okW := len(writes) > 0
+			for _, w := range writes {
+				if e := errOf(w); e == nil || !onlyWhenNil(g, ren, e, true) {
+					okW = false
 				}
 			}
-		})
-		ren := findCall(f, "os.Rename")
-		enc := findCall(f, "(*encoding/json.Encoder).Encode")
-		tmp := findCall(f, "os.CreateTemp")
-		ok := len(bad) == 0 && ren != nil && enc != nil && tmp != nil
-		if ok {
 			dst := atomStr(ren.Call.Args[1])
-			fromTmp := derivesFrom(ren.Call.Args[0], func(v ssa.Value) bool { return v == ssa.Value(tmp) })
-			ok = dst == "configPath.Path" && fromTmp && onlyWhenNil(f, ren, enc, true)
-			ok = ok && strings.Contains(atomStr(tmp.Call.Args[0]), "Dir(configPath.Path)")
+			fromTmp := fromTmpV(ren.Call.Args[0])
+			ok = okW && dst == "configPath.Path" && fromTmp && strings.Contains(atomStr(tmp.Call.Args[0]), "Dir(configPath.Path)")
+			// the body that replaces the file runs on every successful way through persist
+			if ok && len(hc.ctx) > 0 {
+				eachInstr(f, func(in ssa.Instruction) {
+					ret, isRet := in.(*ssa.Return)
+					if !isRet || isRecoverReturn(ret) {
+						return
+					}
+					if vs := retVals(ret); len(vs) == 1 && isNilConst(vs[0]) && !mustPassBefore(f, ret, isInstr(hc.ctx[0]), nil) {
+						ok = false
+					}
+				})
+			}
 		}
+		ok = ok && len(bad) == 0
 		r.Check(ok, "C18.R3", "config file is replaced by rename of a completely written temp file", c.Pos(f.Pos()), "CreateTemp(dir of config) → Encode ok → Rename(tmp, configPath)", "the live config file is opened for truncating write ("+strings.Join(bad, ", ")+") or not replaced by rename after a successful encode: a failed write destroys the stored configuration")
 	}
 
@@ -1711,10 +1899,14 @@ func checkC19(c *Ctx, r *Report) {
 		r.Check(cmpID && idCapture, "C19.R1", "unsubscribe locates its own subscriber by identity", c.Pos(unsub.Pos()), "compares a captured id with the stored ones", "the unsubscribe closure does not search for its own subscriber by a captured identity")
 		// ids are unique: the counter is incremented on every Subscribe
 		inc := false
-		eachInstr(f, func(in ssa.Instruction) {
+		var idBodies []ssa.Instruction
+		for _, hc := range helperContexts(f, 2) { // the registration may sit in a helper (`id := e.add(fn)`)
+			eachInstr(hc.fn, func(in ssa.Instruction) { idBodies = append(idBodies, in) })
+		}
+		for _, in := range idBodies {
 			st, ok := in.(*ssa.Store)
 			if !ok {
-				return
+				continue
 			}
 			if bo, isB := st.Val.(*ssa.BinOp); isB && bo.Op == token.ADD {
 				if k, isC := constInt(bo.Y); isC && k == 1 {
@@ -1727,7 +1919,7 @@ func checkC19(c *Ctx, r *Report) {
 					}
 				}
 			}
-		})
+		}
 		r.Check(inc, "C19.R1", "subscriber ids are unique (counter incremented per Subscribe)", c.Pos(f.Pos()), "id counter += 1", "subscriber ids are not drawn from an incrementing counter")
 	}
 
@@ -2229,4 +2421,139 @@ func isLoopEntryTest(b *ssa.BasicBlock, isCount func(ssa.Value) bool) bool {
 	_, kx := constInt(bo.X)
 	_, ky := constInt(bo.Y)
 	return (kx && isCount(bo.Y)) || (ky && isCount(bo.X))
+}
+
+// deferredRollback: the update function f registers, before it stages anything (the call setp), a deferred method call
+// on the very object that receives the staged list, and that method rolls every staged property back unless a flag
+// of the object is set — a flag that is set only where verify (ver) and persist (per) are known to have succeeded.
+// Then every exit of f that is not an accepted update has rolled back. A deferred method with a value receiver does
+// not qualify: its receiver is the copy made when the defer statement ran, before anything was staged.
+func deferredRollback(li *LockInfo, f *ssa.Function, setp, ver, per *ssa.Call) bool {
+	ok := false
+	eachInstr(f, func(in ssa.Instruction) {
+		d, isD := in.(*ssa.Defer)
+		if !isD || ok {
+			return
+		}
+		D := unwrapSynthetic(d.Call.StaticCallee())
+		if D == nil || D.Blocks == nil || originPkgPath(D) != configPkg || len(d.Call.Args) == 0 || len(D.Params) == 0 || !instrDominates(d, setp) {
+			return
+		}
+		obj, isA := d.Call.Args[0].(*ssa.Alloc)
+		if !isA {
+			return
+		}
+		// the staged list goes into this object
+		stored := false
+		if refs := obj.Referrers(); refs != nil {
+			for _, ref := range *refs {
+				if fa, isFA := ref.(*ssa.FieldAddr); isFA {
+					for _, st := range storesTo(fa) {
+						if derivesFrom(st.Val, func(v ssa.Value) bool { return v == ssa.Value(setp) }) {
+							stored = true
+						}
+					}
+				}
+			}
+		}
+		if !stored {
+			return
+		}
+		// D: unless a bool field of the receiver is set, every way through passes the rollback of the receiver's list
+		var rb *ssa.Call
+		eachInstr(D, func(i2 ssa.Instruction) {
+			if c2, isC := i2.(*ssa.Call); isC && c2.Call.IsInvoke() && c2.Call.Method.Name() == "RollbackStaged" {
+				if derivesFrom(c2.Call.Value, func(v ssa.Value) bool { return v == ssa.Value(D.Params[0]) }) {
+					rb = c2
+				}
+			}
+		})
+		if rb == nil {
+			return
+		}
+		hdr := loopHeaderOf(rb.Block())
+		passes := func(i2 ssa.Instruction) bool {
+			return i2 == ssa.Instruction(rb) || (hdr != nil && i2.Block() == hdr)
+		}
+		var flag *types.Var
+		flagSet := func(b *ssa.BasicBlock, si int) bool { // removes the edges on which the flag is true
+			iff, isIf := b.Instrs[len(b.Instrs)-1].(*ssa.If)
+			if !isIf {
+				return false
+			}
+			cv, positive := stripNot(iff.Cond)
+			ld, isLd := cv.(*ssa.UnOp)
+			if !isLd || ld.Op != token.MUL {
+				return false
+			}
+			fa, isFA := ld.X.(*ssa.FieldAddr)
+			if !isFA || fa.X != ssa.Value(D.Params[0]) {
+				return false
+			}
+			fv, _, is := fieldOf(fa)
+			if !is {
+				return false
+			}
+			if bt, isB := fv.Type().Underlying().(*types.Basic); !isB || bt.Kind() != types.Bool {
+				return false
+			}
+			if flag != nil && flag != fv {
+				return false
+			}
+			flag = fv
+			return (si == 0) == positive
+		}
+		if len(exitsFromEntryAvoiding(D, passes, flagSet)) > 0 {
+			return
+		}
+		if flag == nil {
+			ok = true // an unconditional rollback
+			return
+		}
+		// the flag is raised only on the accepted side
+		good, nTrue := true, 0
+		for _, g := range li.Fns {
+			if originPkgPath(g) != configPkg {
+				continue
+			}
+			eachInstr(g, func(i2 ssa.Instruction) {
+				st, isS := i2.(*ssa.Store)
+				if !isS {
+					return
+				}
+				fv, _, is := fieldOf(st.Addr)
+				if !is || fv != flag {
+					return
+				}
+				b, isC := constBool(st.Val)
+				if !isC {
+					good = false
+					return
+				}
+				if !b {
+					return
+				}
+				nTrue++
+				var sites []ssa.Instruction
+				if g == f {
+					sites = append(sites, st)
+				} else {
+					for _, cs := range li.Callers[g] {
+						if cs.in.Parent() != f {
+							good = false
+							continue
+						}
+						sites = append(sites, cs.in)
+					}
+				}
+				for _, site := range sites {
+					if !onlyWhenNil(f, site, ver, true) || !onlyWhenNil(f, site, per, true) {
+						good = false
+					}
+				}
+			})
+		}
+		ok = good && nTrue > 0
+	})
+	return ok
 }
